@@ -1,7 +1,7 @@
 //! C11 — selection operators. Runs the real component (`execute` on a `State` holding
 //! `Populations` + `Random`) on prepared populations of tagged individuals and prints the outcome,
-//! the whole stack afterwards and — for operators whose choices cannot be read off the tags — the
-//! witness obtained by replaying the same generator calls on an index vector.
+//! the whole stack afterwards; every witness is reconstructed by the driver from the tags in the
+//! output (for SUS the uniform draw is additionally replayed, for the model comparison only).
 //!
 //! input   `(sel (op NAME params…) (rng seed S | script W) (stack (pop (tag obj)*)*))`   stack top first
 //! output  `((res ok|(e exec)|(e ctor)|panic) (stack (pop …)*) (wit none|(draw xHEX)|(sets (i*)*)))`
@@ -17,7 +17,6 @@ use mahf::components::selection::{All, CloneSingle, ExponentialRank, FullyRandom
 use mahf::components::selection::None as SelectNone;
 use mahf::state::common::Populations;
 use mahf::{Component, Individual, Random, SingleObjective, State};
-use rand::seq::SliceRandom;
 use rand::{Rng, RngCore, SeedableRng};
 
 type P = TagProblem;
@@ -88,32 +87,16 @@ fn component(op: &[Sx]) -> Option<Box<dyn Component<P>>> {
     })
 }
 
-fn idxs(rng: &mut Random, len: usize, amount: usize) -> String {
-    let v: Vec<usize> = (0..len).collect();
-    nats(v.choose_multiple(rng, amount).map(|i| *i as u64))
-}
-
-/// Replays the generator calls the operator makes, on index vectors, to read off its choices.
+/// The only draw that cannot be read off the output: SUS' uniform start point. It is obtained by
+/// replaying `rng.gen::<f64>()` on an identically seeded generator and is used by the driver for the
+/// model comparison only (never by the property predicate; a mismatch falls back to a legality check).
+/// All other witnesses (chosen members, tournament competitors, DE partners) are reconstructed by the
+/// driver from the tags in the output.
 fn witness(op: &[Sx], rng_spec: &[Sx], pop: Option<&Vec<Individual<P>>>) -> String {
     let name = op[0].atom().unwrap();
+    if pop.is_none() || name != "sus" { return "none".into(); }
     let mut rng = mk_rng(rng_spec);
-    let Some(pop) = pop else { return "none".into() };
-    let len = pop.len();
-    let n = |k: usize| op[k].nat().unwrap() as usize;
-    catch(|| match name {
-        "sus" => tagged("draw", [fx(rng.gen::<f64>())]),
-        "tournament" => {
-            if len < n(2) { return "(sets)".into(); }
-            tagged("sets", (0..n(1).min(100_000)).map(|_| idxs(&mut rng, len, n(2))).collect::<Vec<_>>())
-        }
-        "derand" => tagged("sets", (0..len).map(|_| idxs(&mut rng, len, 2 * n(1) + 1)).collect::<Vec<_>>()),
-        "debest" => tagged("sets", (0..len).map(|_| idxs(&mut rng, len, 2 * n(1))).collect::<Vec<_>>()),
-        "dectb" => tagged("sets", pop.iter().map(|ind| {
-            let remaining = pop.iter().filter(|&i| i != ind).count();
-            idxs(&mut rng, remaining, (2 * n(1)).saturating_sub(1))
-        }).collect::<Vec<_>>()),
-        _ => "none".into(),
-    }).unwrap_or("none".into())
+    tagged("draw", [fx(rng.gen::<f64>())])
 }
 
 fn run_sel(a: &[Sx]) -> String {
